@@ -42,14 +42,22 @@ func e3Init() {
 var e3StallBound = 30 * time.Second
 
 // waitProgress waits until done() holds; progress() is a monotone counter - the wait fails only
-// when it has not moved for e3StallBound.
+// when it has not moved for e3StallBound. The bound counts time during which this process was being
+// scheduled: of every polling interval at most 5 ms count, so that on a starved machine (intervals of
+// seconds) the bound stretches instead of turning slowness into a verdict.
 func waitProgress(done func() bool, progress func() int64) bool {
-	last, lastAt := progress(), time.Now()
+	last, quiet, at := progress(), time.Duration(0), time.Now()
 	for !done() {
 		time.Sleep(200 * time.Microsecond)
+		now := time.Now()
+		d := now.Sub(at)
+		at = now
+		if d > 5*time.Millisecond {
+			d = 5 * time.Millisecond
+		}
 		if p := progress(); p != last {
-			last, lastAt = p, time.Now()
-		} else if time.Since(lastAt) > e3StallBound {
+			last, quiet = p, 0
+		} else if quiet += d; quiet > e3StallBound {
 			return false
 		}
 	}
@@ -620,12 +628,22 @@ var _ = syscall.SOL_SOCKET
 
 type shutScn struct {
 	Network    string `json:"network"`
-	Idle       int    `json:"idle"`        // connected, one request served, then idle
-	Fresh      int    `json:"fresh"`       // connected, never sent anything
-	Busy       int    `json:"busy"`        // request in progress (handler blocked until released)
-	Closing    int    `json:"closing"`     // clients that close right around Shutdown
-	DeadlineMS int    `json:"deadline_ms"` // Shutdown context deadline
-	ReleaseMS  int    `json:"release_ms"`  // busy handlers are released this long after Shutdown started (<0: only after Shutdown returned)
+	Idle       int    `json:"idle"`             // connected, one request served, then idle
+	Fresh      int    `json:"fresh"`            // connected, never sent anything
+	Busy       int    `json:"busy"`             // request in progress (handler blocked until released)
+	Closing    int    `json:"closing"`          // clients that close right around Shutdown
+	Stream     int    `json:"stream,omitempty"` // the handler has returned, a server goroutine is sending a response larger than the socket takes; the client reads it when the busy handlers are released
+	DeadlineMS int    `json:"deadline_ms"`      // Shutdown context deadline
+	ReleaseMS  int    `json:"release_ms"`       // busy handlers are released this long after Shutdown started (<0: only after Shutdown returned)
+}
+
+const shutStreamBase = 1 << 29
+
+func shutStreamSize(network string) int {
+	if network == "unix" {
+		return 2 << 20
+	}
+	return 12 << 20
 }
 
 func runShutdown(s shutScn) (sig, msg string) {
@@ -635,7 +653,8 @@ func runShutdown(s shutScn) (sig, msg string) {
 		return "", ""
 	}
 	release := make(chan struct{})
-	var inBusy, served int32
+	var inBusy, served, streamDone int32
+	var streamErr atomic.Value
 	var mu sync.Mutex
 	var conns []Connection
 	onRequest := func(ctx context.Context, conn Connection) error {
@@ -643,7 +662,20 @@ func runShutdown(s shutScn) (sig, msg string) {
 		n := rd.Len()
 		p, _ := rd.Next(n)
 		busy := n > 0 && p[0] == 'B'
+		stream := n > 0 && p[0] == 'S'
 		rd.Release()
+		if stream {
+			// answer asynchronously: the handler task is over while the response is still going out
+			go func() {
+				_, err := conn.Write(keyedBytes(shutStreamBase, shutStreamSize(s.Network)))
+				if err != nil {
+					streamErr.Store(err.Error())
+				}
+				atomic.AddInt32(&streamDone, 1)
+			}()
+			atomic.AddInt32(&served, 1)
+			return nil
+		}
 		if busy {
 			atomic.AddInt32(&inBusy, 1)
 			<-release
@@ -673,7 +705,38 @@ func runShutdown(s shutScn) (sig, msg string) {
 		defer os.Remove(addr)
 	}
 	var relOnce sync.Once
-	doRelease := func() { relOnce.Do(func() { close(release) }) }
+	var streams []net.Conn
+	streamGot := make([]int64, s.Stream)
+	streamBad := make([]int32, s.Stream)
+	var streamWG sync.WaitGroup
+	doRelease := func() {
+		relOnce.Do(func() {
+			close(release)
+			// the clients of the streaming connections start reading now
+			for i := range streams {
+				i := i
+				streamWG.Add(1)
+				go func() {
+					defer streamWG.Done()
+					buf := make([]byte, 65536)
+					for {
+						streams[i].SetReadDeadline(time.Now().Add(e3StallBound))
+						n, err := streams[i].Read(buf)
+						if n > 0 {
+							off := int(atomic.LoadInt64(&streamGot[i]))
+							if firstDiff(buf[:n], keyedBytes(shutStreamBase+off, n)) >= 0 {
+								atomic.StoreInt32(&streamBad[i], 1)
+							}
+							atomic.AddInt64(&streamGot[i], int64(n))
+						}
+						if err != nil || int(atomic.LoadInt64(&streamGot[i])) >= shutStreamSize(s.Network) {
+							return
+						}
+					}
+				}()
+			}
+		})
+	}
 	defer doRelease()
 
 	dial := func() (net.Conn, error) {
@@ -685,7 +748,7 @@ func runShutdown(s shutScn) (sig, msg string) {
 	}
 	var idle, fresh, busy, closing []net.Conn
 	closeAll := func() {
-		for _, l := range [][]net.Conn{idle, fresh, busy, closing} {
+		for _, l := range [][]net.Conn{idle, fresh, busy, closing, streams} {
 			for _, c := range l {
 				c.Close()
 			}
@@ -727,8 +790,31 @@ func runShutdown(s shutScn) (sig, msg string) {
 		}
 		closing = append(closing, c)
 	}
-	total := s.Idle + s.Fresh + s.Busy + s.Closing
+	for i := 0; i < s.Stream; i++ {
+		c, err := dial()
+		if err != nil {
+			return "dial", err.Error()
+		}
+		streams = append(streams, c)
+		c.Write([]byte("S"))
+	}
+	// a streaming connection is "in flight" when its handler task is over and its writer waits with output pending
+	streaming := func() int {
+		mu.Lock()
+		defer mu.Unlock()
+		k := 0
+		for _, c := range conns {
+			if cc, ok := c.(*connection); ok && cc.isUnlock(processing) && !cc.outputBuffer.IsEmpty() {
+				k++
+			}
+		}
+		return k
+	}
+	total := s.Idle + s.Fresh + s.Busy + s.Closing + s.Stream
 	if !waitProgress(func() bool {
+		if streaming() < s.Stream {
+			return false
+		}
 		mu.Lock()
 		defer mu.Unlock()
 		return len(conns) >= total && int(atomic.LoadInt32(&inBusy)) >= s.Busy
@@ -770,15 +856,15 @@ func runShutdown(s shutScn) (sig, msg string) {
 	case <-time.After(10 * time.Second):
 		return "serve-not-returned", "Serve did not return after Shutdown"
 	}
-	busyAtEnd := s.Busy > 0 && (s.ReleaseMS < 0 || s.ReleaseMS > s.DeadlineMS+200)
-	busyEarly := s.Busy == 0 || (s.ReleaseMS >= 0 && s.ReleaseMS+300 < s.DeadlineMS)
+	busyAtEnd := s.Busy+s.Stream > 0 && (s.ReleaseMS < 0 || s.ReleaseMS > s.DeadlineMS+200)
+	busyEarly := s.Stream == 0 && (s.Busy == 0 || (s.ReleaseMS >= 0 && s.ReleaseMS+300 < s.DeadlineMS))
 	mu.Lock()
 	all := append([]Connection(nil), conns...)
 	mu.Unlock()
 	if serr == nil {
 		// nil: no tracked connection remains and every server-side connection is closed
 		if busyAtEnd {
-			return "nil-with-busy", fmt.Sprintf("Shutdown returned nil after %v although %d handlers were still running", took, atomic.LoadInt32(&inBusy))
+			return "nil-with-busy", fmt.Sprintf("Shutdown returned nil after %v although %d handlers were still running and %d responses were still in flight (unread by their clients)", took, atomic.LoadInt32(&inBusy), s.Stream)
 		}
 		left := 0
 		evlImpl := evl.(*eventLoop)
@@ -809,6 +895,20 @@ func runShutdown(s shutScn) (sig, msg string) {
 			if _, err := io.ReadFull(c, buf); err != nil || string(buf) != "done" {
 				return "busy-disturbed", fmt.Sprintf("busy connection %d did not get its answer after Shutdown's deadline passed: %q %v", i, buf, err)
 			}
+		}
+	}
+	// a response in flight at Shutdown is completed: the connection was busy, whatever Shutdown returned
+	if s.Stream > 0 {
+		doRelease()
+		streamWG.Wait()
+		for i := range streams {
+			if got := int(atomic.LoadInt64(&streamGot[i])); got != shutStreamSize(s.Network) || atomic.LoadInt32(&streamBad[i]) != 0 {
+				e, _ := streamErr.Load().(string)
+				return "busy-disturbed", fmt.Sprintf("streaming connection %d: the client received %d of %d response bytes (corrupt: %v) that were in flight when Shutdown ran; server Write error: %q; Shutdown returned %v after %v", i, got, shutStreamSize(s.Network), atomic.LoadInt32(&streamBad[i]) != 0, e, serr, took)
+			}
+		}
+		if e, _ := streamErr.Load().(string); e != "" {
+			return "busy-disturbed", fmt.Sprintf("the server-side Write of a response in flight at Shutdown failed: %s", e)
 		}
 	}
 	// idle connections were closed by Shutdown (the client sees EOF), whatever Shutdown returned
@@ -1015,6 +1115,9 @@ func TestVerifC13Live(t *testing.T) {
 		s.Fresh = rapid.IntRange(0, 2).Draw(t, "fresh")
 		s.Busy = rapid.IntRange(0, 3).Draw(t, "busy")
 		s.Closing = rapid.IntRange(0, 3).Draw(t, "closing")
+		if rapid.IntRange(0, 2).Draw(t, "hasStream") == 0 {
+			s.Stream = rapid.IntRange(1, 2).Draw(t, "stream")
+		}
 		s.DeadlineMS = rapid.SampledFrom([]int{150, 400, 900}).Draw(t, "deadline")
 		switch rapid.IntRange(0, 2).Draw(t, "release") {
 		case 0:
@@ -1038,7 +1141,10 @@ func TestVerifC13Live(t *testing.T) {
 			t.Fatalf("C13 violated [%s]: %s", sig, msg)
 		}
 		st.class("net-" + s.Network)
-		if (s.Busy > 0 && s.Idle+s.Fresh > 0) || s.Closing > 0 {
+		if s.Stream > 0 {
+			st.class("response-in-flight")
+		}
+		if (s.Busy+s.Stream > 0 && s.Idle+s.Fresh > 0) || s.Closing > 0 {
 			st.class("nontrivial")
 			if st.nontrivial(fmt.Sprintf("%+v", s)) {
 				st.sample(s)
@@ -2124,12 +2230,76 @@ func runBlockedWrite(payload, closers, delayUS, cbSleepUS, api int, wtimeoutMS i
 	return ""
 }
 
+// runDialHold: the number of live connections grows (the pollers' operator caches grow with it, from the
+// dialing goroutines) while other goroutines dial and close (operators are freed and recycled by the pollers).
+func runDialHold(network string, holders, perHolder, churners int) string {
+	e3Init()
+	ln, addr, err := e3Listen(network)
+	if err != nil {
+		return ""
+	}
+	evl, _ := NewEventLoop(func(ctx context.Context, conn Connection) error {
+		conn.Reader().Skip(conn.Reader().Len())
+		conn.Reader().Release()
+		return nil
+	})
+	done := make(chan error, 1)
+	go func() { done <- evl.Serve(ln) }()
+	nw := "tcp"
+	if network == "unix" {
+		nw = "unix"
+	}
+	var stop int32
+	var hw, cw sync.WaitGroup
+	held := make([][]Connection, holders)
+	for h := 0; h < holders; h++ {
+		hw.Add(1)
+		h := h
+		go func() {
+			defer hw.Done()
+			for i := 0; i < perHolder; i++ {
+				if c, err := DialConnection(nw, addr, 2*time.Second); err == nil && !connIsNil(c) {
+					held[h] = append(held[h], c)
+				}
+			}
+		}()
+	}
+	for k := 0; k < churners; k++ {
+		cw.Add(1)
+		go func() {
+			defer cw.Done()
+			for atomic.LoadInt32(&stop) == 0 {
+				if c, err := DialConnection(nw, addr, 2*time.Second); err == nil && !connIsNil(c) {
+					c.Write([]byte("x"))
+					c.Close()
+				}
+			}
+		}()
+	}
+	hw.Wait()
+	atomic.StoreInt32(&stop, 1)
+	cw.Wait()
+	for _, l := range held {
+		for _, c := range l {
+			c.Close()
+		}
+	}
+	ctx, cancel := context.WithTimeout(context.Background(), 3*time.Second)
+	evl.Shutdown(ctx)
+	cancel()
+	<-done
+	if network == "unix" {
+		os.Remove(addr)
+	}
+	return ""
+}
+
 func TestVerifC19(t *testing.T) {
 	st := newStats("C19")
 	defer st.write()
 	Initialize()
 	rapid.Check(t, func(t *rapid.T) {
-		kind := rapid.SampledFrom([]string{"bulk", "bulk", "shutdown", "dial", "pool", "closerace", "closerace", "blockedwrite", "blockedwrite", "fdsteps"}).Draw(t, "workload")
+		kind := rapid.SampledFrom([]string{"bulk", "bulk", "shutdown", "dial", "pool", "closerace", "closerace", "blockedwrite", "blockedwrite", "dialhold", "fdsteps"}).Draw(t, "workload")
 		st.eval()
 		roles := kind
 		switch kind {
@@ -2169,6 +2339,13 @@ func TestVerifC19(t *testing.T) {
 			pl := rapid.SampledFrom([]int{1, 100, 5000, 70000}).Draw(t, "payload")
 			runCloseRace(nw, k, pl)
 			roles = fmt.Sprintf("closerace/%s/%d/%d", nw, k, pl)
+		case "dialhold":
+			nw := rapid.SampledFrom([]string{"tcp4", "unix"}).Draw(t, "network")
+			h := rapid.IntRange(1, 4).Draw(t, "holders")
+			per := rapid.SampledFrom([]int{30, 60, 120}).Draw(t, "per")
+			ch := rapid.IntRange(1, 4).Draw(t, "churners")
+			runDialHold(nw, h, per, ch)
+			roles = fmt.Sprintf("dialhold/%s/%d/%d/%d", nw, h, per, ch)
 		case "blockedwrite":
 			pl := rapid.SampledFrom([]int{100000, 1 << 20, 4 << 20}).Draw(t, "payload")
 			k := rapid.IntRange(1, 3).Draw(t, "closers")
